@@ -1,5 +1,9 @@
-/- driver ops for the Merkle-proof checks (Model/Proof.lean): chkproof, chkhdr, chkacct.
-DAG syntax as for `celldag` (Drv/Cell.lean); cells are evaluated once each into `PCell`s. -/
+/- driver ops for the Merkle-proof checks (Model/Proof.lean, Model/Locate.lean): chkproof, chkhdr, chkacct, locacct.
+DAG syntax as for `celldag` (Drv/Cell.lean); cells are evaluated once each into `PCell`s.
+`chkacct <dag> <roots> <blk hash> <addr> <state idx> [<badAcc> <badMc>]`: the last two arguments are `.`-separated representation
+hashes of the cells on which the library's `Account.deserialize` / `McStateExtra.deserialize` raise (the two sub-parsers the model
+keeps abstract, `Opaque`); omitted = both always return.  `locacct <dag> <state idx> <addr> <badAcc> <badMc>` answers
+`<hash of locateAccount's result | x> <hash of lookupShardAccount's result | x>`. -/
 import TonVerif.Drv.Common
 import TonVerif.Drv.Cell
 import TonVerif.Model.Proof
@@ -12,6 +16,24 @@ def parsePDag (arg : String) : Option (Array (Option PCell)) :=
   ((arg.splitOn "|").mapM parseNode).map evalPDag
 
 def accRej (b : Bool) : String := if b then "acc" else "rej"
+
+/-- `.`-separated list of hex strings, `-` = empty -/
+def parseHexList (s : String) : Option (List Bytes) :=
+  if s == "-" then some [] else (s.splitOn ".").mapM bytesOfHex?
+
+/-- the verdicts of the two unmodelled sub-parsers, as observed on the library by the harness: the representation
+hashes of the cells on which `Account.deserialize` / `McStateExtra.deserialize` raise -/
+def opaqueOf (badAcc badMc : List Bytes) : Opaque where
+  account c := !badAcc.contains c.info.hash
+  mcExtra c := !badMc.contains c.info.hash
+
+def chkAcct (d roots bh key st badAcc badMc : String) : String :=
+  match parsePDag d, parseNatList roots, hexArg bh, hexArg key, st.toNat?, parseHexList badAcc, parseHexList badMc with
+  | some cells, some rs, some bhb, some kb, some si, some ba, some bm =>
+    match rs.mapM (fun i => (cells[i]?).join), (cells[si]?).join with
+    | some rcs, some sc => accRej (checkAccountProof (opaqueOf ba bm) rcs bhb kb sc)
+    | _, _ => "rej"
+  | _, _, _, _, _, _, _ => "bad-op"
 
 namespace Proof
 def handle? (op : String) (args : List String) : Option String :=
@@ -35,12 +57,17 @@ def handle? (op : String) (args : List String) : Option String :=
         else "rej"
       | none => "rej"
     | _, _, _ => "bad-op"
-  | "chkacct", [d, roots, bh, key, st] => some <|
-    match parsePDag d, parseNatList roots, hexArg bh, hexArg key, st.toNat? with
-    | some cells, some rs, some bhb, some kb, some si =>
-      match rs.mapM (fun i => (cells[i]?).join), (cells[si]?).join with
-      | some rcs, some sc => accRej (checkAccountProof locateAccount rcs bhb kb sc)
-      | _, _ => "rej"
+  | "chkacct", [d, roots, bh, key, st] => some (chkAcct d roots bh key st "-" "-")
+  | "chkacct", [d, roots, bh, key, st, badAcc, badMc] => some (chkAcct d roots bh key st badAcc badMc)
+  | "locacct", [d, idx, key, badAcc, badMc] => some <|
+    -- `locateAccount` alone and the lookup-only walk `lookupShardAccount` on the same state cell: "<hash|x> <hash|x>"
+    match parsePDag d, idx.toNat?, hexArg key, parseHexList badAcc, parseHexList badMc with
+    | some cells, some i, some kb, some ba, some bm =>
+      match (cells[i]?).join with
+      | some c =>
+        let sh (o : Option PCell) := match o with | some a => hexOfBytes a.info.hash | none => "x"
+        sh (locateAccount (opaqueOf ba bm) c kb) ++ " " ++ sh (lookupShardAccount pcellView c (bytesToBits kb))
+      | none => "x x"
     | _, _, _, _, _ => "bad-op"
   | _, _ => none
 end Proof
